@@ -377,6 +377,13 @@ impl<RW: QueueRW<T>, T> MultiQueue<RW, T> {
                     if self.writers.load(Relaxed) == 0 {
                         fence(Acquire);
                         if rm_tag(read_cell.wraps.load(Acquire)) != wrap_valid_tag {
+                            // On a shared stream another consumer may have moved the
+                            // position since it was loaded; the slot then simply belongs
+                            // to a later lap and says nothing about this stream's end
+                            if reader.load_count(Relaxed) != wrap_valid_tag {
+                                ctail_attempt = ctail_attempt.reload();
+                                continue;
+                            }
                             return Err((ptr::null(), TryRecvError::Disconnected));
                         }
                     }
